@@ -103,6 +103,22 @@ structure TableS where
 
 def revKey (r : Nat) : Key := be 8 r
 
+/-! ### initializers (table.go: Initialized / PendingInitializers / RegisterInitializer) -/
+
+/-- `Initialized(txn)` and `PendingInitializers(txn)` of the model -/
+def tblInitialized (t : TableS) : Bool := (t.init.getD []).isEmpty
+def tblPending (t : TableS) : List String := t.init.getD []
+
+/-- register: the name becomes pending -/
+def tblRegister (t : TableS) (name : String) : TableS := { t with init := some ((t.init.getD []) ++ [name]) }
+/-- mark done (idempotent on the pending list) -/
+def tblMarkDone (t : TableS) (name : String) : TableS :=
+  match t.init with
+  | some p => { t with init := some (p.filter (· ≠ name)) }
+  | none => t
+
+
+
 /-! ### index maintenance (partIndexTxn.reindex, lpmIndexTxn.reindex) -/
 
 def reindexUnique (idx : OMap Obj) (old new : Option Obj) (keys : Obj → List Key) : OMap Obj :=
